@@ -75,6 +75,7 @@ m("c16-sotdma-eq-ignores-timeout", S + "radio_status.rs", "#[derive(Debug, Parti
 m("c11-rot-direction-absent-at-127", S + "navigation.rs", "            1..=127 => Some(Direction::Starboard),\n            -127..=-1 => Some(Direction::Port),", "            -127 | 127 => None,\n            1..=126 => Some(Direction::Starboard),\n            -126..=-1 => Some(Direction::Port),", ["C11"])
 m("c16-utc-submessage-spare-not-read", S + "radio_status.rs", "        let (data, minute) = take_bits(6u8)(data)?;\n        let (data, _spare) = take_bits::<_, u8, _, _>(2u8)(data)?;\n", "        let (data, minute) = take_bits(6u8)(data)?;\n", ["C16"])
 m("c20-record-with-precision", "src/bin/aisparser.rs", "        println!(\n            \"{:?}\\t{:?}\",", "        println!(\n            \"{:?}\\t{:.6?}\",", ["C20"])
+m("c14-reservations-retain-nonzero", S + "data_link_management_message.rs", "        let (data, reservations) = many_m_n::<_, _, _, _, 4>(1, SlotReservation::parse)(data)?;\n", "        let (data, reservations) = many_m_n::<_, _, _, _, 4>(1, SlotReservation::parse)(data)?;\n        let mut reservations = reservations;\n        reservations.retain(|r| r.offset != 0);\n", ["C14", "C01"])
 m("c07-payload-must-be-utf8", SS, "    let (data, ais_data) = take_until(\",\")(data)?;", "    let (data, ais_data) = verify(take_until(\",\"), |p: &[u8]| lib::std::str::from_utf8(p).is_ok())(data)?;", ["C07", "C08"])
 m("c18-rot-rate-cfg-formula", S + "navigation.rs", "            -126..=126 => Some((self.raw as f32 / 4.733) * (self.raw as f32 / 4.733)),", "            #[cfg(feature = \"std\")]\n            -126..=126 => Some((self.raw as f32 / 4.733) * (self.raw as f32 / 4.733)),\n            #[cfg(not(feature = \"std\"))]\n            -126..=126 => Some((self.raw as f32 * self.raw as f32) * (1.0 / (4.733 * 4.733))),", ["C18"])
 n("n-c11-heading-ge-via-unwrap-or-default", S + "static_and_voyage_related_data.rs", "            (data, Dte::default())", "            (data, None::<Dte>.unwrap_or_default())", ["C14", "C12", "C04"])
